@@ -1537,6 +1537,221 @@ impl C18 {
   }
 }
 
+
+// ------------------------------------------------------------------------------------------------
+// loopback conformance pass: the REAL start_server over a real TCP connection, sequentially.
+// Not simulation (no schedule, no fault is decided here): it closes the blind spot of hook H2, which
+// repeats the service list of start_server instead of running it.
+// ------------------------------------------------------------------------------------------------
+
+fn http_over_tcp(port: u16, b: &Built) -> Result<Resp, String> {
+  use std::io::{Read, Write};
+  let mut stream = std::net::TcpStream::connect(("127.0.0.1", port)).map_err(|e| format!("connect: {}", e))?;
+  let _ = stream.set_read_timeout(Some(std::time::Duration::from_secs(20)));
+  let _ = stream.set_write_timeout(Some(std::time::Duration::from_secs(20)));
+  let mut head = format!("{} {} HTTP/1.1\r\nHost: 127.0.0.1\r\nConnection: close\r\nContent-Length: {}\r\n", b.method, b.path, b.body.len());
+  if let Some(ct) = b.content_type {
+    head.push_str(&format!("Content-Type: {}\r\n", ct));
+  }
+  head.push_str("\r\n");
+  stream.write_all(head.as_bytes()).map_err(|e| format!("write: {}", e))?;
+  // a server that answers 4xx before the whole (oversize) body is sent may reset the connection
+  let _ = stream.write_all(&b.body);
+  let mut raw = vec![];
+  let _ = stream.read_to_end(&mut raw);
+  let split = raw.windows(4).position(|w| w == b"\r\n\r\n").ok_or_else(|| format!("no header end in {} bytes", raw.len()))?;
+  let head_text = String::from_utf8_lossy(&raw[..split]).to_string();
+  let mut body = raw[split + 4..].to_vec();
+  let status: u16 = head_text.split_whitespace().nth(1).and_then(|s| s.parse().ok()).ok_or("no status")?;
+  let mut content_type = String::new();
+  let mut chunked = false;
+  for line in head_text.lines().skip(1) {
+    let lower = line.to_ascii_lowercase();
+    if let Some(v) = lower.strip_prefix("content-type:") {
+      content_type = v.trim().to_string();
+    }
+    if lower.starts_with("transfer-encoding:") && lower.contains("chunked") {
+      chunked = true;
+    }
+  }
+  if chunked {
+    let mut out = vec![];
+    let mut i = 0;
+    loop {
+      let end = match body[i..].windows(2).position(|w| w == b"\r\n") {
+        Some(e) => i + e,
+        None => break,
+      };
+      let size = usize::from_str_radix(String::from_utf8_lossy(&body[i..end]).trim(), 16).unwrap_or(0);
+      if size == 0 {
+        break;
+      }
+      let start = end + 2;
+      if start + size > body.len() {
+        break;
+      }
+      out.extend_from_slice(&body[start..start + size]);
+      i = start + size + 2;
+    }
+    body = out;
+  }
+  Ok(Resp { status, content_type, body })
+}
+
+fn loopback_script(seed: u64) -> Vec<Value> {
+  let mut script: Vec<Value> = vec![
+    json!({"kind": "info"}),
+    json!({"kind": "clear"}),
+    json!({"kind": "add", "m": "A1"}),
+    json!({"kind": "add", "m": "A1"}),
+    json!({"kind": "add", "m": "D"}),
+    json!({"kind": "add", "m": "B"}),
+    json!({"kind": "add", "m": "F"}),
+    json!({"kind": "eval", "m": "A1"}),
+    json!({"kind": "deploy"}),
+    json!({"kind": "eval", "m": "A1"}),
+    json!({"kind": "eval", "m": "F"}),
+    json!({"kind": "tod", "m": "B"}),
+    json!({"kind": "echo", "m": "A1", "tck": false, "dec": "s", "s": "quote \" backslash \\ tab \t newline \n bell \u{7} e-acute \u{e9} emoji \u{1F600}"}),
+    json!({"kind": "echo", "m": "A1", "tck": true, "dec": "s", "s": "quote \" backslash \\ tab \t newline \n bell \u{7} e-acute \u{e9} emoji \u{1F600}"}),
+    json!({"kind": "echo", "m": "A1", "tck": false, "dec": "mix", "s": "k\"v", "n": "-0.00000001234", "b": true}),
+    json!({"kind": "echo", "m": "B", "tck": true, "dec": "mix", "s": "", "n": "12345678901234567890.5", "b": false}),
+    json!({"kind": "echo", "m": "B", "tck": true, "dec": "dt", "tv": "2021-03-28T10:20:30Z"}),
+    json!({"kind": "echo", "m": "B", "tck": false, "dec": "dd", "tv": "P1DT2H3M4S"}),
+    json!({"kind": "echo", "m": "A1", "tck": false, "dec": "snull"}),
+    json!({"kind": "replace", "m": "A2"}),
+    json!({"kind": "eval", "m": "A2"}),
+    json!({"kind": "deploy"}),
+    json!({"kind": "eval", "m": "A2"}),
+    json!({"kind": "remove", "ns": "B", "name": "B"}),
+    json!({"kind": "add", "m": "B2"}),
+    json!({"kind": "deploy"}),
+    json!({"kind": "eval", "m": "B2"}),
+  ];
+  for (i, what) in MALFORMED.iter().enumerate() {
+    script.push(json!({"kind": "mal", "what": what, "m": "A2", "n": i}));
+  }
+  script.push(json!({"kind": "eval", "m": "A2"}));
+  // two seeded sequential scripts
+  let mut rng = Rng::new(derive(seed, "C18-loopback", 0));
+  for _ in 0..60 {
+    let m = *rng.pick(&ALPHA_KEYS);
+    let r = match rng.index(10) {
+      0 => json!({"kind": "add", "m": m}),
+      1 => json!({"kind": "replace", "m": m}),
+      2 => json!({"kind": "remove", "ns": m, "name": rng.pick(&ALPHA_KEYS)}),
+      3 => json!({"kind": "deploy"}),
+      4 => json!({"kind": "clear"}),
+      5 | 6 => json!({"kind": "eval", "m": m}),
+      7 => json!({"kind": "mal", "what": rng.pick(&MALFORMED), "m": m, "n": rng.below(64)}),
+      _ => gen_echo(&mut rng, m.to_string()),
+    };
+    script.push(r);
+  }
+  // one oversize body on each kind of extractor
+  script.push(json!({"kind": "add", "m": "H", "net": {"oversize": true}}));
+  script.push(json!({"kind": "eval", "m": "A2", "net": {"oversize": true}}));
+  script.push(json!({"kind": "info"}));
+  script
+}
+
+pub fn loopback_pass(seed: u64) -> ExtraPass {
+  let s = setup();
+  let mut pass = ExtraPass { name: "loopback-conformance".to_string(), ..Default::default() };
+  // a free port
+  let port = match std::net::TcpListener::bind(("127.0.0.1", 0)).and_then(|l| l.local_addr()) {
+    Ok(a) => a.port(),
+    Err(e) => {
+      pass.note = format!("skipped: no loopback port can be bound ({})", e);
+      return pass;
+    }
+  };
+  let exe = std::env::current_exe().expect("current_exe");
+  let mut child = match std::process::Command::new(exe).args(["serve", &port.to_string()]).env("TZ", "UTC0").stdin(std::process::Stdio::null()).stdout(std::process::Stdio::null()).stderr(std::process::Stdio::null()).spawn() {
+    Ok(c) => c,
+    Err(e) => {
+      pass.note = format!("skipped: the service process cannot be started ({})", e);
+      return pass;
+    }
+  };
+  let info = build_request(s, &json!({"kind": "info"}));
+  let started = std::time::Instant::now();
+  let mut up = false;
+  while started.elapsed() < std::time::Duration::from_secs(10) {
+    if http_over_tcp(port, &info).map(|r| r.status == 200).unwrap_or(false) {
+      up = true;
+      break;
+    }
+    std::thread::sleep(std::time::Duration::from_millis(50));
+  }
+  if !up {
+    let _ = child.kill();
+    let _ = child.wait();
+    pass.note = "skipped: the service did not answer /system/info within 10 s".to_string();
+    return pass;
+  }
+  let mut states: BTreeSet<SpecState> = BTreeSet::new();
+  states.insert(SpecState { stored: vec![], deployed: BTreeMap::new() });
+  let script = loopback_script(seed);
+  for (i, r) in script.iter().enumerate() {
+    let mut built = build_request(s, r);
+    if pbool(&r["net"], "oversize") {
+      let limit = if built.content_type == Some("application/json") { 4 * 1024 * 1024 } else { 256 * 1024 };
+      built.body.resize(limit + 1024, b' ');
+      built.op = Op::Malformed(true);
+      built.label = format!("{} [oversize]", built.label);
+    }
+    pass.counters.inc("requests");
+    pass.counters.inc(&format!("request.{}", built.op.kind()));
+    let resp = match http_over_tcp(port, &built) {
+      Ok(r) => r,
+      Err(e) => {
+        if pbool(&r["net"], "oversize") {
+          // the server may close the connection on an oversize body before an answer can be read
+          pass.counters.inc("oversize_connection_closed_without_readable_answer");
+          continue;
+        }
+        let v = viol("no-response", &format!("loopback:{}", built.op.kind()), i as u64, format!("`{}` is answered over TCP", built.label), e);
+        pass.violations.push((json!({"property": "C18", "pass": "loopback-conformance", "step": i, "request": r, "script": script}), v));
+        break;
+      }
+    };
+    if resp.content_type.starts_with("application/json") {
+      pass.counters.inc("response.content_type.json");
+    } else {
+      pass.counters.inc("response.content_type.other");
+    }
+    let verdict = classify_response(&built.op, &built.label, &resp, i as u64).and_then(|class| {
+      let mut next = BTreeSet::new();
+      for st in &states {
+        for n in spec_step(s, st, &built.op, &class) {
+          next.insert(n);
+        }
+      }
+      if next.is_empty() {
+        Err(viol(
+          "loopback-differs-from-specification",
+          &format!("{}:{}", built.op.kind(), match class { RespClass::Data(_) => "answered-data", RespClass::Errors => "answered-errors" }),
+          i as u64,
+          format!("step {} `{}` of the sequential script is answered as the workspace specification says", i, built.label),
+          String::from_utf8_lossy(&resp.body).chars().take(300).collect(),
+        ))
+      } else {
+        states = next;
+        Ok(())
+      }
+    });
+    if let Err(v) = verdict {
+      pass.violations.push((json!({"property": "C18", "pass": "loopback-conformance", "step": i, "request": r, "script": script}), v));
+      break;
+    }
+  }
+  let _ = child.kill();
+  let _ = child.wait();
+  pass.note = format!("real start_server on 127.0.0.1:{}, {} sequential requests over TCP; not simulation, not counted in evaluations", port, pass.counters.get("requests"));
+  pass
+}
+
 const TEMPORALS: [(&str, &[&str]); 5] = [
   ("d", &["2021-03-28", "1999-12-31", "2020-02-29", "1970-01-01"]),
   ("t", &["10:20:30", "23:59:59", "00:00:00", "10:20:30Z", "10:20:30+02:00", "10:20:30.5"]),
@@ -1875,6 +2090,9 @@ impl Sim for C18 {
   }
   fn real_stub(&self) -> Value {
     json!({"real": ["actix-web router, Json/Path/String extractors with the real limits and error handler", "the eight handlers, do_* functions, DTO conversion, Value::jsonify", "dmntk-workspace, dmntk-model, dmntk-model-evaluator, FEEL parser and evaluator, decNumber"], "stub": ["TCP, HTTP/1 codec, accept loop, worker threads -> simulated transport and shuttle tasks", "std::sync::RwLock -> dmntk-verif-sync", "wall clock date -> simulated (hook H4)", "directory contents -> written by the simulator"]})
+  }
+  fn extra_pass(&self, _tier: Tier, seed: u64) -> Option<ExtraPass> {
+    Some(loopback_pass(seed))
   }
   fn expected_probes(&self) -> Vec<&'static str> {
     vec![
